@@ -53,3 +53,4 @@ struct Cmd { const char* name; cmd_fn fn; };
 int cmd_namematch(int, char**);
 int cmd_trace(int, char**);
 int cmd_json(int, char**);
+int cmd_promela(int, char**);
